@@ -85,9 +85,23 @@ struct LogVerdict {
   long enters = 0;
   std::vector<std::pair<std::string, std::string>> viol;  // key, detail
 };
+// independent of the library: 'UTC', 'UTC0' or Fixed/UTC[+-]dd:dd:dd spelling at most 24 hours
 static bool is_internal_name(const std::string& n) {
-  cctz::seconds off;
-  return cctz::FixedOffsetFromName(n, &off);
+  if (n == "UTC" || n == "UTC0") return true;
+  const std::string pre = "Fixed/UTC";
+  if (n.size() != pre.size() + 9 || n.compare(0, pre.size(), pre) != 0) return false;
+  const char* p = n.data() + pre.size();
+  if ((p[0] != '+' && p[0] != '-') || p[3] != ':' || p[6] != ':') return false;
+  for (int i : {1, 2, 4, 5, 7, 8})
+    if (p[i] < '0' || p[i] > '9') return false;
+  long tot = ((p[1] - '0') * 10 + (p[2] - '0')) * 3600 + ((p[4] - '0') * 10 + (p[5] - '0')) * 60 + (p[7] - '0') * 10 + (p[8] - '0');
+  return tot <= 86400;
+}
+static std::string fixed_name(long off) {
+  char b[64];
+  long a = off < 0 ? -off : off;
+  snprintf(b, sizeof b, "Fixed/UTC%c%02ld:%02ld:%02ld", off < 0 ? '-' : '+', a / 3600, (a / 60) % 60, a % 60);
+  return b;
 }
 static LogVerdict check_factory_log(const std::vector<zsrc::Event>& log, std::map<std::string, int>* calls_per_name) {
   LogVerdict v;
@@ -169,8 +183,9 @@ static void stress_round(sup::Ctx& ctx, uint64_t seed, long round, int k, const 
   for (int j = 0; j < 2; ++j) names.push_back({pre + "bad" + std::to_string(j), -1, false, 0});
   zsrc::put(pre + "garbage", "TZif2 this is not zone data");
   names.push_back({pre + "garbage", -1, false, 0});
-  for (long off : {3600L, -12345L, 86400L}) names.push_back({cctz::FixedOffsetToName(cctz::seconds(off)), -2, true, off});
+  for (long off : {3600L, -12345L, 86400L, -86400L, 86399L, -1L}) names.push_back({fixed_name(off), -2, true, off});
   names.push_back({"UTC", -2, true, 0});
+  names.push_back({"UTC0", -2, true, 0});
   // zones shared by all threads (their hints are hammered)
   std::vector<cctz::time_zone> shared(static_cast<size_t>(nz));
   std::vector<int> shared_zi(static_cast<size_t>(nz));
@@ -502,7 +517,7 @@ static SchedResult run_schedule(sup::Ctx& ctx, const Program& P, long serial, co
 static std::vector<Program> programs(int kmax) {
   std::vector<Program> ps;
   // names: A, B valid; A2 alias of A's bytes; bad invalid; fixed
-  std::vector<std::pair<std::string, int>> names = {{"A", 0}, {"B", 1}, {"A2", 0}, {"bad", -1}, {"Fixed/UTC+01:00:00", -2}};
+  std::vector<std::pair<std::string, int>> names = {{"A", 0}, {"B", 1}, {"A2", 0}, {"bad", -1}, {"Fixed/UTC-24:00:00", -2}};
   ps.push_back({{{0}, {0}}, names, "2:A|A"});
   ps.push_back({{{0}, {1}}, names, "2:A|B"});
   ps.push_back({{{0, 0}, {0}}, names, "2:AA|A"});
